@@ -163,6 +163,12 @@ Theorem C17_add_blocker_keeps_representation : forall (c : cplx) K (sigma : simp
 Proof. exact add_blocker_keeps_representation. Qed.
 Print Assumptions C17_add_blocker_keeps_representation.
 
+Theorem C17_add_vertex_keeps_representation : forall (c : cplx) K,
+  closed K -> represents c K -> wf_slots c -> fresh K (slots c) ->
+  represents (add_vertex c) (K_av K (slots c)) /\ closed (K_av K (slots c)).
+Proof. exact add_vertex_keeps_representation. Qed.
+Print Assumptions C17_add_vertex_keeps_representation.
+
 (* non-vacuity of F: the full triangle 012 built by the transcribed operations represents the complex of the non-empty faces of
    [0;1;2], which is closed, contains [0;1;2], [0], [0;1], and has no large blocker *)
 Example C17_representation_instance : represents full_triangle K_triangle /\ closed K_triangle /\
